@@ -52,6 +52,6 @@ def main():
              engines=[dict(name='tlc-conformance', path='/verif/check', serves_properties=[c['property_id'] for c in checks],
                            kind_free_text='explicit TLA+ specifications checked with TLC; histories generated by TLC replayed on the real code; recorded traces validated by TLC against the same specifications')],
              checks=checks, not_applicable=na,
-             notes='See DESIGN.md. ./check <ID> [--tier quick|thorough] [--replay f]. exit 2 = machinery failure.')
+             notes='See DESIGN.md (section 10 = as built). ./check <ID> [--tier quick|thorough] [--replay f] [--selftest]; exit 0 held (KNOWN-FINDING lines possible), 1 VIOLATION, 2 machinery failure. Seeds: VERIF_SEED. /repo carries 19 fix: commits (KNOWN_FINDINGS.json lists them with their replays under replays/); one open known finding (C17.newerKept:olderAfterNewer). seeded/ = 234 independently authored breaking changes with results (seeded/README.md), benign/ = 43 behaviour-preserving changes that must stay quiet; tools_seeded.py eval <dir> re-evaluates one on a scratch copy. tools_sweep.py / tools_soak.py / tools_soak_l1.py: sweeps and harness soaks on the unchanged tree. Thorough tier wall times on a loaded 16-core box: 1.5-28 min per property (C02/C06/C20 the longest).')
     json.dump(m, open(os.path.join(HERE, 'MANIFEST.json'), 'w'), indent=1)
 main()
